@@ -1,4 +1,4 @@
-// C02 known finding "mistyped-goto-unbound", minimal witness.
+// C02 regression input: former finding "mistyped-goto-unbound" (REPAIRED in /repo by fix 126604b), minimal witness.
 // The checker annotates `goto k (3)` with the type EXPECTED of the goto expression (Box), and
 // fun2core uses that annotation as the type of the covariable occurrence k, whose binding is
 // `k :cns i64`.  typed_free_vars removes only identical bindings, so k stays "free" in the second
